@@ -67,6 +67,21 @@ class Expand(_Bodies):
         out = []
         for st in body:
             rep = None
+            # try: x = d[k]  except KeyError: A  [else: B]      ->      if k in d: x = d[k]; B  else: A
+            # (the only thing in the try body that can raise KeyError is the look-up of the simple key k in the simple container d)
+            if isinstance(st, ast.Try) and len(st.handlers) == 1 and not st.finalbody and len(st.body) == 1 \
+                    and isinstance(st.handlers[0].type, ast.Name) and st.handlers[0].type.id == "KeyError" and st.handlers[0].name is None \
+                    and isinstance(st.body[0], (ast.Assign, ast.Expr)):
+                val = st.body[0].value
+                subs = [y for y in ast.walk(val) if isinstance(y, ast.Subscript)]
+                calls = [y for y in ast.walk(st.body[0]) if isinstance(y, (ast.Call, ast.Await, ast.Yield, ast.YieldFrom))]
+                tg_ok = not isinstance(st.body[0], ast.Assign) or all(isinstance(y, (ast.Name, ast.Tuple, ast.List, ast.Store)) or isinstance(y, ast.expr_context)
+                                                                       for t_ in st.body[0].targets for y in ast.walk(t_))
+                if len(subs) == 1 and val is subs[0] and not calls and tg_ok and _simple(subs[0].value) and _simple(subs[0].slice):
+                    d, k = subs[0].value, subs[0].slice
+                    out.append(_loc(ast.If(test=ast.Compare(left=copy.deepcopy(k), ops=[ast.In()], comparators=[copy.deepcopy(d)]),
+                                           body=[st.body[0]] + list(st.orelse), orelse=list(st.handlers[0].body)), st))
+                    continue
             if isinstance(st, ast.Expr) and isinstance(st.value, ast.Call) and isinstance(st.value.func, ast.Attribute) and not st.value.keywords:
                 c = st.value
                 recv = c.func.value
